@@ -2,7 +2,9 @@
 (* Bounded instances of WalkProtocol: all forests on <= MaxNodes nodes, quit at no node or at one. *)
 EXTENDS WalkProtocol, Json
 
-CONSTANTS MaxNodes, WithQuit
+CONSTANTS MaxNodes, WithQuit,
+          WithErr,   \* BOOLEAN: up to two unreadable entries (non-root leaves)
+          WithSkip   \* BOOLEAN: the visitor answers Skip at no node or at one
 
 \* a forest on 1..k: parent[i] \in 0..(i-1), 0 = root
 Forests(k) == [1..k -> 0..(k-1)]
@@ -10,11 +12,15 @@ IsForest(p, k) == \A i \in 1..k : p[i] < i
 RootSeq(p, k) == LET RECURSIVE B(_, _)
                      B(i, acc) == IF i > k THEN acc ELSE B(i + 1, IF p[i] = 0 THEN Append(acc, i) ELSE acc)
                  IN B(1, <<>>)
-TreeOf(p, k) == [ch |-> [n \in 1..k |-> {c \in 1..k : p[c] = n}], roots |-> RootSeq(p, k)]
+TreeOf(p, k) == [ch |-> [n \in 1..k |-> {c \in 1..k : p[c] = n}], roots |-> RootSeq(p, k), err |-> {}, skip |-> {}]
 Trees == UNION { {TreeOf(p, k) : p \in {q \in Forests(k) : IsForest(q, k)}} : k \in 1..MaxNodes }
 
-MCInit == \E t \in Trees :
-            \E q \in ({{}} \cup (IF WithQuit THEN {{n} : n \in DOMAIN t.ch} ELSE {})) : InitWith(t, q)
+RootsOf(t) == {t.roots[i] : i \in 1..Len(t.roots)}
+ErrChoices(t) == IF WithErr THEN {e \in SUBSET {n \in DOMAIN t.ch : t.ch[n] = {} /\ n \notin RootsOf(t)} : Cardinality(e) <= 2} ELSE {{}}
+SkipChoices(t) == {{}} \cup (IF WithSkip THEN {{n} : n \in DOMAIN t.ch} ELSE {})
+MCInit == \E t \in Trees : \E e \in ErrChoices(t) : \E s \in SkipChoices(t) :
+            \E q \in ({{}} \cup (IF WithQuit THEN {{n} : n \in DOMAIN t.ch} ELSE {})) :
+               InitWith([t EXCEPT !.err = e, !.skip = s], q)
 
 Spec == MCInit /\ [][Next]_vars
 
